@@ -36,9 +36,8 @@ ASSUMPTIONS = [
     "copy.deepcopy(contexts) returns a list of the same length whose elements are PresentationContext objects",
 ]
 NOT_DECIDED = [
-    "the user-information item list of arbitrary extended-negotiation item combinations and the A-ASSOCIATE-AC result list "
-    "('one result per proposed context, an accepted transfer syntax on every accepted item') are carried by C10/C11/C13's "
-    "obligations on negotiate_as_acceptor and ACSE._negotiate_as_acceptor, not re-proved here",
+    "the A-ASSOCIATE-AC result list ('one result per proposed context, an accepted transfer syntax on every accepted item') is "
+    "carried by C10/C11/C13's obligations on negotiate_as_acceptor and ACSE._negotiate_as_acceptor, not re-proved here",
     "maximum PDU sizes >= 2**32 are accepted by the setters but cannot be packed into the 4-byte field (struct.error in AE-2): "
     "not examined here",
 ]
@@ -350,7 +349,8 @@ class IdsLemma(Task):
 
 
 def tasks(tier):
-    return [TablesTask(), ValidateAeTask(), ValidateUiTask(), SetAeTask(), TitleSitesTask(), AssociateIdsTask(), IdsLemma()]
+    return [TablesTask(), ValidateAeTask(), ValidateUiTask(), SetAeTask(), TitleSitesTask(), AssociateIdsTask(), IdsLemma(),
+            UserInfoInvariantTask(), UserInfoSitesTask()]
 
 
 def replay(rec):
@@ -365,3 +365,115 @@ LEVEL_NOTE = ("level 'other': the user-information item multiplicities for arbit
               "are covered by other properties' contracts (see not_decided); UID character legality is an open known finding in the default "
               "configuration.")
 TECHNIQUE = "deductive: AST->VC with character-level symbolic strings (z3 LIA), loop contract on the id assignment, exhaustive AST scans"
+
+
+# ---------------------------------------------------------------------------------------------
+# ServiceUser: representation invariant of the user-information items
+# ---------------------------------------------------------------------------------------------
+SU = f"{ASSOC}:ServiceUser"
+PP = "pynetdicom.pdu_primitives"
+KINDS = ["MaximumLengthNotification", "ImplementationClassUIDNotification", "ImplementationVersionNameNotification"]
+FIELD = {"MaximumLengthNotification": "_maximum_length", "ImplementationClassUIDNotification": "_implementation_class_uid",
+         "ImplementationVersionNameNotification": "_implementation_version_name"}
+SETTER = {"maximum_length": "MaximumLengthNotification", "implementation_class_uid": "ImplementationClassUIDNotification",
+          "implementation_version_name": "ImplementationVersionNameNotification"}
+
+
+def _shapes():
+    out = []
+    for k in range(len(KINDS) + 1):
+        out += [list(p) for p in itertools.permutations(KINDS, k)]
+    return out
+
+
+class UserInfoInvariantTask(Task):
+    """INV(_user_info): only notification items of the three kinds, at most one of each.  Every list satisfying INV has one of
+    16 shapes (values arbitrary), so 'for every state satisfying INV' is the 16 shapes x symbolic values: each setter preserves
+    INV and leaves exactly one item of its kind holding the new value (none for implementation_version_name = None)."""
+    name = "ServiceUser/user-information-invariant"
+    functions = [f"{SU}.maximum_length.fset", f"{SU}.implementation_class_uid.fset", f"{SU}.implementation_version_name.fset"]
+    shard = True
+
+    def config(self, repo):
+        c = Config()
+        c.ob_prefix = "C12/"
+        c.summaries[f"{UT}:set_uid"] = lambda I, a, k: a[0]
+        c.summaries[f"{UT}:set_ae"] = lambda I, a, k: a[0]
+        return c
+
+    def body(self, I):
+        P = f"C12/{SU}"
+        shapes = _shapes()
+        shape = shapes[I.choose(len(shapes), "items already held (shape of _user_info)")]
+        su = Obj(I.repo.cls(SU), tag="service_user")
+        items = []
+        for kd in shape:
+            it = Obj(I.repo.cls(f"{PP}:{kd}"), tag=kd)
+            it.fields[FIELD[kd]] = Env(f"old:{kd}")
+            items.append(it)
+        su.fields.update(_user_info=items, primitive=None, _mode="requestor")
+        names = list(SETTER)
+        which = names[I.choose(len(names), "setter")]
+        kd = SETTER[which]
+        if which == "maximum_length":
+            val = I.input("int", "maximum_length")
+            I.assume(val.e >= 0)
+        elif which == "implementation_class_uid":
+            from contracts.negotiation import UIDv
+            val = UIDv(I.input("int", "implementation_class_uid").e)
+        else:
+            val = [Env("version-name"), None][I.choose(2, "version name or None")]
+            if val is not None:
+                val.truth = True
+        fset = I.repo.cls(SU).props[which].fset
+        kind, r = I.run_function(fset, [su, val])
+        if kind == "raise":
+            # the item's own setter may refuse the value (e.g. a maximum length it cannot hold): nothing may have been added twice
+            after = su.fields["_user_info"]
+            I.ob(f"{P}.{which}.fset/a-refused-value-leaves-at-most-one-item-of-each-kind",
+                 all(sum(1 for x in after if isinstance(x, Obj) and x.cls.name == k2) <= 1 for k2 in KINDS), detail=repr(r))
+            return
+        after = su.fields["_user_info"]
+        counts = {k2: sum(1 for x in after if isinstance(x, Obj) and x.cls.name == k2) for k2 in KINDS}
+        I.ob(f"{P}.{which}.fset/invariant-preserved:only-notification-items-at-most-one-of-each-kind",
+             all(isinstance(x, Obj) and x.cls.name in KINDS for x in after) and all(v <= 1 for v in counts.values()), detail=str(counts))
+        want = 0 if (which == "implementation_version_name" and val is None) else 1
+        I.ob(f"{P}.{which}.fset/exactly-one-item-of-its-kind-afterwards-(none-after-setting-None)", counts[kd] == want, detail=str(counts))
+        if want == 1:
+            it = next(x for x in after if x.cls.name == kd)
+            got = it.fields.get(FIELD[kd])
+            same = I.eq(got, val) if not isinstance(val, Env) else (got is val)
+            I.ob(f"{P}.{which}.fset/the-item-holds-the-new-value", same if not isinstance(same, bool) else z3.BoolVal(same), detail=repr(got))
+        others_ok = all(counts[k2] == shape.count(k2) for k2 in KINDS if k2 != kd)
+        I.ob(f"{P}.{which}.fset/items-of-the-other-kinds-are-untouched", others_ok, detail=f"{shape} -> {counts}")
+
+
+class UserInfoSitesTask(FiniteTask):
+    """where _user_info is written: only ServiceUser.__init__ (empty list, then the two mandatory setters) and the three setters;
+    the extended-negotiation store only accepts the four negotiation item types - so user_information = _user_info + extended items
+    holds exactly one Maximum Length and one Implementation Class UID item"""
+    name = "frame/user-information-writers"
+    functions = [f"{SU}.__init__", f"{SU}.reset_negotiation_items"]
+
+    def check(self, repo, emit):
+        ci = repo.cls(SU)
+        writers = []
+        for mn, fi in list(ci.methods.items()) + [(f"{pn}.fset", p.fset) for pn, p in ci.props.items() if p.fset] + \
+                [(f"{pn}.fget", p.fget) for pn, p in ci.props.items() if p.fget]:
+            for n in ast.walk(fi.node):
+                if isinstance(n, ast.Assign) and any(isinstance(t, ast.Attribute) and t.attr == "_user_info" for t in n.targets):
+                    writers.append(mn)
+                if isinstance(n, ast.Call) and isinstance(n.func, ast.Attribute) and n.func.attr in ("append", "remove", "extend", "insert", "pop", "clear") \
+                        and isinstance(n.func.value, ast.Attribute) and n.func.value.attr == "_user_info":
+                    writers.append(mn)
+        emit("C12/frame/_user_info-is-written-only-by-__init__-and-the-three-setters",
+             sorted(set(writers)) == sorted(["__init__", "maximum_length.fset", "implementation_class_uid.fset", "implementation_version_name.fset"]),
+             detail=str(sorted(set(writers))))
+        init = ci.methods["__init__"].node
+        src = ast.unparse(init)
+        emit("C12/frame/ServiceUser.__init__-sets-the-maximum-length-and-the-implementation-class-uid",
+             "self._user_info: list[_UI] = []" in src and "self.maximum_length" in src and "self.implementation_class_uid" in src
+             and src.index("self._user_info") < src.index("self.maximum_length =") < src.index("self.implementation_class_uid ="))
+        reset = ast.unparse(ci.methods["reset_negotiation_items"].node)
+        kinds = [k for k in ("MaximumLengthNotification", "ImplementationClassUIDNotification") if k in reset]
+        emit("C12/frame/the-extended-negotiation-store-has-no-slot-for-the-mandatory-items", not kinds, detail=reset[:200])
